@@ -251,7 +251,7 @@ ENC3 = ['moPepGen.gtf.TranscriptAnnotationModel.get_cds_start_index',
         'moPepGen.gtf.TranscriptAnnotationModel.get_transcript_sequence (orf, selenocysteine)']
 
 
-def _check_orf(glen, strand, exons, cs, ce, frame, utr_split, sec_k):
+def _check_orf(glen, strand, exons, cs, ce, frame, utr_split, sec_k, utr_records=True):
     """CDS = [cs, ce) in TRANSCRIPT-STRAND-INDEPENDENT genomic coordinates restricted to
     exons; 3'UTR = rest of the exons downstream (in transcript direction) of the CDS,
     optionally split into per-exon pieces; one Sec codon at CDS offset 3*sec_k."""
@@ -294,7 +294,8 @@ def _check_orf(glen, strand, exons, cs, ce, frame, utr_split, sec_k):
         if t0 + 2 > last:
             return SKIP
         sec_t = (t0, t0 + 3)
-    anno = anno_one_gene(gs, ge, strand, exons, cds=cds, cds_frames=frames, three_utr=three)
+    # utr_records False: an annotation that lists exons and CDS only (no UTR rows) - the ORF still ends with the CDS
+    anno = anno_one_gene(gs, ge, strand, exons, cds=cds, cds_frames=frames, three_utr=three if utr_records else [])
     tm = anno.transcripts['T1']
     if sec_k >= 0:
         g0 = genomic_oracle(exons, strand, sec_t[0])
@@ -333,7 +334,7 @@ def _check_orf(glen, strand, exons, cs, ce, frame, utr_split, sec_k):
 
 CODES3 = {-1: "ORF start differs from the transcript index of the 5'-most CDS base plus frame",
           -2: 'ORF length not a multiple of 3', -3: 'ORF end outside the transcript',
-          -4: "ORF end disagrees with the annotated CDS end (3'UTR present)",
+          -4: "ORF end disagrees with the annotated CDS end (the transcript continues after the CDS)",
           -5: "ORF end (no 3'UTR) is not the last complete codon of the transcript",
           -6: 'number of selenocysteine positions wrong', -7: 'selenocysteine position disagrees with the feature'}
 
@@ -384,6 +385,19 @@ def c11_orf_3exons_minus(glen: int, a0: int, b0: int, a1: int, b1: int, a2: int,
     post: _ >= 0
     """
     return _check_orf(glen, -1, [(a0, b0), (a1, b1), (a2, b2)], cs, ce, frame, True, -1)
+
+
+@cond('C11', bounds="ORF, 2 exons, both strands, annotation WITHOUT UTR records (exon and CDS rows only) although the transcript "
+      "continues after the CDS; CDS = any exonic interval with >= 1 complete codon, frame 0..2, UNBOUNDED coordinates",
+      encodes=ENC3, codes=CODES3, timeout=500)
+def c11_orf_2exons_no_utr_records(glen: int, plus: bool, a0: int, b0: int, a1: int, b1: int, cs: int, ce: int,
+                                  frame: int) -> int:
+    """
+    pre: 0 <= glen
+    pre: 0 <= frame <= 2
+    post: _ >= 0
+    """
+    return _check_orf(glen, 1 if plus else -1, [(a0, b0), (a1, b1)], cs, ce, frame, True, -1, utr_records=False)
 
 
 @cond('C11', bounds='Sec codon at CDS codon 0..2, 2 exons, both strands; ' + _OB, encodes=ENC3,
